@@ -21,7 +21,8 @@ class ObsWorld:
         self.Watch = TRef("Watch", self.WS)
         self.Handler = TRef("Handler", self.HS, methods={"dispatch": self.m_dispatch})
         self.Emitter = TRef("Emitter", self.ES, attrs={"watch": lambda ex, r: self.Watch.wrap(self.watch_of(r.t))},
-                            methods={"start": self.m_estart, "stop": self.m_estop, "join": self.m_ejoin, "is_alive": self.m_ealive})
+                            methods={"start": self.m_estart, "stop": self.m_estop, "join": self.m_ejoin, "is_alive": self.m_ealive,
+                                     "should_keep_running": lambda ex, r, a, k, n: VBool(z3.Not(ex.ghost["stopped"].t[r.t]))})
         self.Event = TRef("FsEvent", self.EvS)
         self.HSet = TSet(self.Handler)
         self.TH = TDict(self.Watch, self.HSet, default=lambda: self.HSet.empty())
@@ -31,9 +32,10 @@ class ObsWorld:
     # ---------------- emitter thread contracts (E7)
     def m_estart(self, ex, r, args, kw, node):
         """BaseThread.start of an emitter: runs on_thread_start (may raise, e.g. OSError from inotify) then starts"""
-        if ex.choose(2, "emitter.start raises") == 1:
+        c = ex.choose(3, "emitter.start: ok / OSError (watch construction) / RuntimeError (the thread cannot be started)")
+        if c:
             ex.ghost["start_failed"] = VSet(z3.Store(ex.ghost["start_failed"].t, r.t, True), self.Emitter)
-            raise Raise(VExc("OSError"), "emitter.start()")
+            raise Raise(VExc("OSError" if c == 1 else "RuntimeError"), "emitter.start()")
         ex.ghost["started"] = VSet(z3.Store(ex.ghost["started"].t, r.t, True), self.Emitter)
         return None
 
